@@ -4,6 +4,6 @@ set -e
 cd "$(dirname "$0")/.."
 mkdir -p build/tmp build/tlc
 if [ -f spec/BigRat.java ]; then
-  javac -nowarn -cp /opt/veriftools/tla/tla2tools.jar -d spec spec/BigRat.java
+  javac -nowarn -cp /opt/veriftools/tla/tla2tools.jar -d spec spec/BigRat.java spec/RFun.java
 fi
 echo setup ok
